@@ -4,10 +4,12 @@ import (
 	"encoding/base64"
 	"fmt"
 
+	"strings"
 	"verif/cells"
 	"verif/drv"
 	"verif/genrun"
 	"verif/report"
+	"verif/spec"
 )
 
 // c13Served is the compiled half of C13: the served body (and the compiled constant) through real
@@ -38,6 +40,22 @@ var c13Served = func(run *report.Run, env *Env) {
 			for _, name := range []string{"openapi.yaml", "spec.json"} {
 				add(fmt.Sprintf("served:doc%d:base=%s:name=%s", i, bn, name), baseDoc, raw, cells.BaseFormByName(bn), name)
 			}
+		}
+	}
+	// operations whose templates also match the spec URL: the spec route still wins
+	for i, tmpl := range []string{"/{x}", "/openapi.yaml", "/{x}/{y}"} {
+		for _, bn := range []string{"none", "v1"} {
+			bf := cells.BaseFormByName(bn)
+			sp := &spec.Spec{Servers: bf.Servers, Paths: []*spec.PathItem{{Template: tmpl, Ops: []*spec.Op{{Method: "GET", Responses: []*spec.Response{{Status: "default", Desc: "d"}}}}}}}
+			for _, seg := range []string{"x", "y"} {
+				if strings.Contains(tmpl, "{"+seg+"}") {
+					sp.Paths[0].Params = append(sp.Paths[0].Params, &spec.Param{Name: seg, In: "path", Required: true, Schema: spec.T("string")})
+				}
+			}
+			raw := sp.YAML()
+			id := fmt.Sprintf("served:overlap%d:%s:base=%s", i, tmpl, bn)
+			pl := &drv.SpecFilePayload{State: id, RawB64: base64.StdEncoding.EncodeToString(raw), Base: bf.Want, SpecName: "openapi.yaml"}
+			states = append(states, BState{ID: id, Attrs: mergeAttrs(c13Shape(raw), map[string]string{"base": bf.Name, "overlap": tmpl}), Gen: &genrun.Job{Spec: raw, BasePath: bf.Flag}, Prop: "C13", Payload: pl})
 		}
 	}
 	st := RunBatch(run, env, states, 250)
